@@ -65,17 +65,17 @@ func utf16le(s string) []byte {
 }
 
 var (
-	oidSignedData   = dergen.OID(1, 2, 840, 113549, 1, 7, 2)
-	oidCTL          = dergen.OID(1, 3, 6, 1, 4, 1, 311, 10, 1)
-	oidCatalogList  = dergen.OID(1, 3, 6, 1, 4, 1, 311, 12, 1, 1)
-	oidMember       = dergen.OID(1, 3, 6, 1, 4, 1, 311, 12, 1, 2)
-	oidMemberV2     = dergen.OID(1, 3, 6, 1, 4, 1, 311, 12, 1, 3)
-	oidNameValue    = dergen.OID(1, 3, 6, 1, 4, 1, 311, 12, 2, 1)
-	oidMemberInfo   = dergen.OID(1, 3, 6, 1, 4, 1, 311, 12, 2, 2)
-	oidIndirect     = dergen.OID(1, 3, 6, 1, 4, 1, 311, 2, 1, 4)
-	oidPeImageData  = dergen.OID(1, 3, 6, 1, 4, 1, 311, 2, 1, 15)
-	oidSha1         = dergen.OID(1, 3, 14, 3, 2, 26)
-	oidSha256       = dergen.OID(2, 16, 840, 1, 101, 3, 4, 2, 1)
+	oidSignedData  = dergen.OID(1, 2, 840, 113549, 1, 7, 2)
+	oidCTL         = dergen.OID(1, 3, 6, 1, 4, 1, 311, 10, 1)
+	oidCatalogList = dergen.OID(1, 3, 6, 1, 4, 1, 311, 12, 1, 1)
+	oidMember      = dergen.OID(1, 3, 6, 1, 4, 1, 311, 12, 1, 2)
+	oidMemberV2    = dergen.OID(1, 3, 6, 1, 4, 1, 311, 12, 1, 3)
+	oidNameValue   = dergen.OID(1, 3, 6, 1, 4, 1, 311, 12, 2, 1)
+	oidMemberInfo  = dergen.OID(1, 3, 6, 1, 4, 1, 311, 12, 2, 2)
+	oidIndirect    = dergen.OID(1, 3, 6, 1, 4, 1, 311, 2, 1, 4)
+	oidPeImageData = dergen.OID(1, 3, 6, 1, 4, 1, 311, 2, 1, 15)
+	oidSha1        = dergen.OID(1, 3, 14, 3, 2, 26)
+	oidSha256      = dergen.OID(2, 16, 840, 1, 101, 3, 4, 2, 1)
 )
 
 func algID(oid []byte) []byte { return dergen.Seq(oid, dergen.Null()) }
@@ -187,10 +187,10 @@ func Check(b []byte) error {
 		return fmt.Errorf("content is not a certificate trust list")
 	}
 	var ctl struct {
-		Usage   []asn1.ObjectIdentifier
-		ListID  []byte
-		Date    time.Time
-		Alg     struct {
+		Usage  []asn1.ObjectIdentifier
+		ListID []byte
+		Date   time.Time
+		Alg    struct {
 			OID  asn1.ObjectIdentifier
 			Null asn1.RawValue `asn1:"optional"`
 		}
